@@ -309,6 +309,11 @@ Proof.
   eexists. eexists. split; [reflexivity|]. split; [reflexivity|]. split; [reflexivity|]. split; vm_compute; congruence.
 Qed.
 (* with EOL = 0 connector losses are stable *)
+Lemma map_qred2_idem : forall l, map qred2 (map qred2 l) = map qred2 l.
+Proof.
+  induction l as [|[a b] t IH]; [reflexivity|]. cbn [map]. rewrite IH. f_equal. unfold qred2. cbn [fst snd].
+  f_equal; apply Qred_complete; apply Qred_correct.
+Qed.
 Lemma conn_fib_stable : forall c f nf, (c_eol c == 0)%Q ->
   export_fib (conn_fib c (export_fib (conn_fib c f nf)) nf) = export_fib (conn_fib c f nf).
 Proof.
@@ -323,6 +328,7 @@ Proof.
   - f_equal. apply Qred_complete. apply Qred_correct.
   - f_equal. apply Qred_complete. destruct nf; rewrite ?Qred_correct; [reflexivity|]. rewrite H0. ring.
   - apply Qred_complete. apply Qred_correct.
+  - apply map_qred2_idem.
 Qed.
 
 (* padding is stable: a span that has been padded is not padded again *)
@@ -382,9 +388,21 @@ Proof.
   { apply Qltb_ge. rewrite fib_loss_bump. ring_simplify. apply Qle_refl. }
   rewrite Hge. apply Qltb_lt in Hlt. rewrite Hlt. rewrite fib_loss_bump. reflexivity.
 Qed.
-(* F19: lumped losses do not survive the export *)
-Lemma export_drops_lumped : forall f, f_lumped (export_fib f) = [].
-Proof. reflexivity. Qed.
+(* the export keeps the lumped losses (gnpy fix 562b868b for finding F19): same positions and losses, hence the same
+   fibre loss *)
+Lemma export_keeps_lumped : forall f,
+  Forall2 (fun a b => (fst a == fst b)%Q /\ (snd a == snd b)%Q) (f_lumped f) (f_lumped (export_fib f)) /\
+  (qsum (map snd (f_lumped (export_fib f))) == qsum (map snd (f_lumped f)))%Q.
+Proof.
+  intro f. unfold export_fib. cbn [f_lumped]. induction (f_lumped f) as [|[a b] t [IH1 IH2]]; [split; [constructor | reflexivity]|].
+  split.
+  - constructor; [cbn; split; symmetry; apply Qred_correct | exact IH1].
+  - cbn [map qsum qred2 fst snd]. rewrite IH2, Qred_correct. reflexivity.
+Qed.
+(* node-level design bands survive the export whenever there is at least one (gnpy fix 37844749 for finding F8);
+   an empty list is re-filled from the SI bands by the design, as it was before the export *)
+Lemma bands_roundtrip : forall {A} (si bands : list A), bands <> [] -> reload_bands si (export_bands bands) = bands.
+Proof. intros A si [|b t] H; [contradiction | reflexivity]. Qed.
 Lemma export_fib_idem : forall f, export_fib (export_fib f) = export_fib f.
 Proof.
   intro f. unfold export_fib. cbn [f_name f_raman f_len f_lc f_cin f_cout f_att f_lumped].
@@ -398,6 +416,7 @@ Proof.
   - destruct (f_cin f); cbn; [f_equal; apply Qred_complete; apply Qred_correct | reflexivity].
   - destruct (f_cout f); cbn; [f_equal; apply Qred_complete; apply Qred_correct | reflexivity].
   - apply Qred_complete. apply Qred_correct.
+  - apply map_qred2_idem.
 Qed.
 
 (* ---------- non-vacuity ---------- *)
